@@ -163,16 +163,23 @@ def assign_debug(cases, keyfn, share=3, ctx=None, name=""):
     return cases
 
 
-HANDLER_VARIANTS = ["plain", "full-capabilities", "registry", "hostile-info"]
+HANDLER_VARIANTS = ["plain", "full-capabilities", "registry", "hostile-info", "mcpserver"]
 
 
-def _new_handler(variant=None):
+def _new_handler(variant=None, index=0):
     from chuk_mcp.server.protocol_handler import ProtocolHandler
     from chuk_mcp.protocol.types.info import ServerInfo
     from chuk_mcp.protocol.types.capabilities import ServerCapabilities
 
     if variant in (None, "plain"):
-        return ProtocolHandler(ServerInfo(name="verif-server", version="1.0"), ServerCapabilities())
+        return ProtocolHandler(ServerInfo(name=f"verif-server-{index}", version=f"1.{index}"), ServerCapabilities())
+    if variant == "mcpserver":  # the handler an MCPServer object builds for itself (it registers its tool / resource methods too)
+        from chuk_mcp.server import MCPServer
+
+        srv = MCPServer(f"verif-mcpserver-{index}", version=f"2.{index}")
+        h = srv.protocol_handler
+        h._verif_owner = srv  # keep the server object alive
+        return h
     if variant == "full-capabilities":
         caps = ServerCapabilities(tools={"listChanged": True}, resources={"subscribe": True, "listChanged": False},
                                   prompts={"listChanged": True}, logging={}, experimental={"protocolVersion": {"v": "1999-01-01"}})
@@ -321,6 +328,10 @@ def _json_safe(v):
 def _read_answer(resp):
     """What the response object says NOW (it is serialised the way a transport does: model_dump)."""
     obs = {}
+    try:
+        obs["server_name"] = _json_safe((getattr(resp, "result", None) or {}).get("serverInfo", {}).get("name"))
+    except Exception:
+        pass
     out = None
     if resp is None:
         obs["kind"] = "none"
@@ -387,8 +398,12 @@ def run_server(cases):
         out = []
         for c in cases:
             with debug_logging(c.get("debug")):
-                handler = _new_handler(c.get("hv"))
+                older = _new_handler(c.get("hv"), index=0)
+                if c.get("newer"):  # another server object of the same class is built AFTER the one the request goes to
+                    _newer = _new_handler(c["newer"], index=1)
+                handler = older
                 o, _ = await _serve_one(handler, init_request_dict(c["req"]))
+                o["sid_returned"] = o.get("sid") is not None
             o.pop("sid", None)
             o["sessions"] = handler.session_manager.get_session_count()
             out.append(o)
@@ -450,7 +465,9 @@ def run_server_seq(cases):
 
     async def one_case_(c):
         # "handlers": n -> n handlers alive at once; a step's "h" picks one (default 0); every handler sees the SAME message ids
-        handlers = [_new_handler(c.get("hv")) for _ in range(int(c.get("handlers") or 1))]
+        # all handlers are built FIRST (so the one a request goes to is in general not the newest object of its class)
+        hvs = c.get("hvs") or [c.get("hv")] * int(c.get("handlers") or 1)
+        handlers = [_new_handler(v, index=i) for i, v in enumerate(hvs)]
         if c.get("store_raises"):
             for h_ in handlers:
                 _faulty_session_manager(h_, c["store_raises"]["cls"], c["store_raises"]["times"])
@@ -558,6 +575,12 @@ def run_server_seq(cases):
                     resp.result["protocolVersion"] = "1999-01-01"  # the consumer's own copy of the answer, rewritten in place
                     resp.result.setdefault("capabilities", {})["rewritten"] = True
                     o["mutated_by_consumer"] = True
+                if not err and read_now and resp is not None and o.get("kind") == "result":
+                    o["sid_returned"] = sid is not None
+                    # ... and whether some OTHER handler of this process holds that session instead
+                    o["session_elsewhere"] = any(hh is not handler and sid is not None and hh.session_manager.get_session(sid) is not None
+                                                 for hh in handlers)
+                    o["expected_server_name"] = getattr(handler.server_info, "name", None)
                 o["carried"] = carry if sid_in is not None else None
                 o["h"] = hi
                 o["new_sessions"] = sm.get_session_count() - before
@@ -793,6 +816,37 @@ class _RaisingReceive:
         return getattr(self._inner, name)
 
 
+SEQUENCE_KINDS = ["list", "tuple", "deque", "userlist", "sequence"]
+
+
+def as_sequence(items, kind):
+    """The caller's supported versions as another sequence type the library accepts (indexing and `in` are all it uses)."""
+    import collections
+    import collections.abc
+
+    if kind in (None, "list"):
+        return list(items)
+    if kind == "tuple":
+        return tuple(items)
+    if kind == "deque":
+        return collections.deque(items)
+    if kind == "userlist":
+        return collections.UserList(items)
+    if kind == "sequence":
+        class Versions(collections.abc.Sequence):
+            def __init__(self, xs):
+                self._xs = list(xs)
+
+            def __getitem__(self, i):
+                return self._xs[i]
+
+            def __len__(self):
+                return len(self._xs)
+
+        return Versions(items)
+    raise ValueError(kind)
+
+
 class _Streams:
     def __init__(self, wbuf=None):
         import anyio
@@ -900,7 +954,8 @@ async def _client_call(loop, st, c, client):
         loop.at(loop.ticks + at + c["self_close"], lambda: (not state["done"]) and st.out_send.close())
     kwargs = {}
     if sup_obj is not None:
-        kwargs["supported_versions"] = tuple(sup_obj) if c.get("sup_tuple") else sup_obj
+        kwargs["supported_versions"] = (tuple(sup_obj) if c.get("sup_tuple") else
+                                        (as_sequence(sup_obj, c["sup_kind"]) if c.get("sup_kind") else sup_obj))
     if c.get("pref") is not None:
         kwargs["preferred_version"] = c["pref"]
     elif c.get("pref_none"):
@@ -1103,7 +1158,7 @@ async def _handshake_case(loop, c):
 
     kwargs = {"timeout": c.get("D", 2048) * vloop.TICK}
     if c.get("sup") is not None:
-        kwargs["supported_versions"] = list(c["sup"])
+        kwargs["supported_versions"] = as_sequence(c["sup"], c.get("sup_kind"))
     if c.get("pref") is not None:
         kwargs["preferred_version"] = c["pref"]
     async with anyio.create_task_group() as tg:
@@ -1188,7 +1243,7 @@ async def _multi_handshake_case(loop, c):
         cl = c["clients"][i]
         kwargs = {"timeout": 2048 * vloop.TICK}
         if cl.get("sup") is not None:
-            kwargs["supported_versions"] = list(cl["sup"])
+            kwargs["supported_versions"] = as_sequence(cl["sup"], cl.get("sup_kind"))
         if cl.get("pref") is not None:
             kwargs["preferred_version"] = cl["pref"]
         try:
@@ -1410,3 +1465,68 @@ def run_split(fn_name, cases):
             raise RuntimeError("worker: " + ans["error"])
         obs_there[b] = iter(ans["obs"])
     return [next(obs_there[c["backend"]]) if c.get("backend") else next(obs_here) for c in cases]
+
+
+# ---------------------------------------------------------------------------------- stdio_client_with_initialize
+def run_stdio_init(cases):
+    """The convenience entry point `stdio_client_with_initialize` (spawns the server, initializes, tracks the version) through the
+    `anyio.open_process` seam with the scripted child of stdio_h: the child answers the initialize request with the case's version
+    (or never).  case = {"sup", "sup_kind", "pref", "ans": {"k": "version", "s"} | {"k": "silence"}}.  Observed: outcome class,
+    returned version, the initialize request and the initialized notifications the child received, the client's batching state."""
+    from . import stdio_h as S
+
+    mod = S.stdio_module()
+    holder = {}
+
+    async def one(loop, c):
+        import anyio
+        from chuk_mcp.transports.stdio.parameters import StdioParameters
+
+        loop.tie = "events"
+        script = [("reply_init", c["ans"]["s"])] if c["ans"]["k"] == "version" else []
+        script += [("sleep", 4000)]
+        proc = S.FakeProcess(script)
+        proc.t0 = loop.ticks
+        holder["proc"] = proc
+        obs = {}
+        kwargs = {"timeout": 1.0}
+        if c.get("sup") is not None:
+            kwargs["supported_versions"] = as_sequence(c["sup"], c.get("sup_kind"))
+        if c.get("pref") is not None:
+            kwargs["preferred_version"] = c["pref"]
+        try:
+            async with mod.stdio_client_with_initialize(StdioParameters(command="verif-fake-child", args=[]), **kwargs) as (_r, _w, res):
+                obs["outcome"] = "ok"
+                obs["v"] = _json_safe(getattr(res, "protocolVersion", None))
+                obs["type"] = type(res).__name__
+                await anyio.sleep(5 * S.STEP)  # let the writer task hand the notification to the child
+        except BaseException as ex:  # noqa
+            if isinstance(ex, BaseExceptionGroup):
+                leaves = []
+
+                def walk(e):
+                    for x in getattr(e, "exceptions", [e]):
+                        (walk(x) if isinstance(x, BaseExceptionGroup) else leaves.append(x))
+
+                walk(ex)
+                ex = next((x for x in leaves if isinstance(x, Exception)), ex)
+            if not isinstance(ex, Exception):
+                raise
+            obs.update(_classify(ex))
+        trace = []
+        for b in proc.stdin.sends:
+            try:
+                d = json.loads(b.decode("utf-8"))
+            except Exception:
+                continue
+            w, _ = _wire(d)
+            if w is not None:
+                trace.append(w)
+        obs["trace"] = trace
+        return obs
+
+    saved = S._patched(mod, holder)
+    try:
+        return _run_on_vloop(one, cases)
+    finally:
+        S._restore(saved)
